@@ -66,6 +66,7 @@ struct GeoSpec
   float tilt = 0.F;
   float zoom = 1.F;  // x voxel size = central tangential sampling / zoom
   float aniso = 1.F; // y voxel size = x voxel size * aniso
+  bool same_nxy = false; // as many voxels in y as in x even if the y voxels are smaller (the image then ends first in y)
   int nx = 0, ny = 0; // 0: odd size just covering all tangential positions
   int dnx = 0, dny = 0; // added to the automatic size (negative: the FOV cuts off outer tangential positions)
   int m = 1;                  // z voxel size = axial sampling of segment 0 / m
@@ -126,7 +127,7 @@ build_geo(const GeoSpec& sp, int id)
   g->vy = g->vx * sp.aniso;
   const float max_s = std::max(std::fabs(p.get_s(Bin(0, 0, 0, g->max_tang))), std::fabs(p.get_s(Bin(0, 0, 0, g->min_tang))));
   const int nx = (sp.nx > 0 ? sp.nx : 2 * static_cast<int>(std::ceil(max_s / g->vx)) + 1) + sp.dnx;
-  const int ny = (sp.ny > 0 ? sp.ny : 2 * static_cast<int>(std::ceil(max_s / g->vy)) + 1) + sp.dny;
+  const int ny = sp.same_nxy ? nx : (sp.ny > 0 ? sp.ny : 2 * static_cast<int>(std::ceil(max_s / g->vy)) + 1) + sp.dny;
   g->miny = -(ny / 2);
   g->maxy = g->miny + ny - 1;
   g->minx = -(nx / 2);
@@ -892,8 +893,16 @@ random_spec(vh::Rng& rng, bool small)
   s.tof_bins = 0;
   const int vk = rng.range(0, 5);
   s.zoom = vk == 0 ? 2.F : (vk == 1 ? .5F : (vk == 2 ? 1.3F : 1.F));
-  if (rng.range(0, 4) == 0)
-    s.aniso = 1.25F; // anisotropic: no 90 degree symmetry
+  {
+    const int ak = rng.range(0, 7);
+    if (ak == 0)
+      s.aniso = 1.25F; // anisotropic: no 90 degree symmetry
+    else if (ak == 1)
+      {
+        s.aniso = .8F; // y voxels smaller than x voxels
+        s.same_nxy = rng.coin(); // ... and the FOV radius in mm limited by the y extent
+      }
+  }
   s.dnx = -rng.range(0, 2); // even sizes, FOV cutting the outer tangential positions
   s.dny = rng.range(0, 3) == 0 ? s.dnx - 1 : s.dnx;
   s.m = rng.range(1, 2) + (rng.range(0, 5) == 0 ? 1 : 0);
@@ -966,6 +975,12 @@ main(int argc, char** argv)
     c.zoom = .5F; // arc-corrected, voxel twice the bin size: odd tangential positions run along voxel boundaries at 0 and 90 degrees
     c.dny = -1;
     sampled.push_back(build_geo(c, next_id++));
+    GeoSpec c2; // y voxels smaller than x voxels, square index range: LORs reach the image border in y first
+    c2.N = 12;
+    c2.ntang = 5;
+    c2.aniso = .75F;
+    c2.same_nxy = true;
+    sampled.push_back(build_geo(c2, next_id++));
     GeoSpec d; // view mashing to 4 views, even span-like axial sampling with 4 rings
     d.N = 16;
     d.mash = 2;
